@@ -68,6 +68,13 @@ def jobs(tier, seed):
                     c['autos'] = au
                     out.append({'family': f'forced-bet-grid-{n}p', 'cfg': c, 'opts': {'show': (None,), 'raises': 'minmax', 'probe': True},
                                 'dev_bound': 1, 'state_cap': 60000, 'time_cap': 120})
+    for stacks in [(2, 9), (9, 2), (2, 2), (2, 9, 9), (9, 2, 9), (9, 9, 2), (2, 2, 2), (1, 2, 9)]:
+        for game in ('FixedLimitSevenCardStud', 'FixedLimitRazz'):
+            for au in ('NONE', 'ALL', ['ANTE_POSTING', 'BET_COLLECTION', 'CARD_BURNING', 'HOLE_DEALING']):
+                c = C.stud(stacks, game=game, antes=1, bring_in=2, small=4, big=8)
+                c['autos'] = au
+                out.append({'family': 'stud-partial-bring-in', 'cfg': c, 'opts': {'show': (None,), 'probe': True}, 'dev_bound': 1,
+                            'state_cap': 60000, 'time_cap': 300})
     for fam, cfg, o in big:
         for au in few:
             c = dict(cfg)
